@@ -7,6 +7,8 @@ import IrefVerif.Lemmas.ResolveAuth
 import IrefVerif.Lemmas.ResolveRel
 import IrefVerif.Lemmas.ResolveRelNoAuth
 import IrefVerif.Lemmas.ResolveTotal
+import IrefVerif.Lemmas.ResolveComponents
+import IrefVerif.Lemmas.ResolveRendering
 import IrefVerif.Lemmas.IriBytes
 import IrefVerif.Props.Valid
 import IrefVerif.Lemmas.ValidWF
@@ -204,6 +206,50 @@ theorem resolve_total_valid (G : Grammar) (ok : Grammar.Ok G) (okp : Grammar.OkP
     (hb : RE.Matches G.full base) (hr : RE.Matches G.reference r) :
     ∃ t, Model.Ref.resolve r base = some t ∧ RE.Matches G.full t :=
   Lemmas.resolve_total G ok okp base r hb hr
+
+/-- **component selection is §5.2.2 in every branch, no side condition**: the result is a valid full
+URI/IRI whose scheme, authority, query and fragment are exactly those of the RFC target (this is
+the second clause of the property: when the RFC target would be ambiguous, the result still has
+the RFC's scheme, authority, query and fragment; only the path is rendered with a shield) -/
+theorem resolve_components (G : Grammar) (ok : Grammar.Ok G) (okp : Grammar.OkPath G) (base r : Text)
+    (hb : RE.Matches G.full base) (hr : RE.Matches G.reference r) :
+    ∃ t, Model.Ref.resolve r base = some t ∧ RE.Matches G.full t ∧
+      (split t).scheme = (resolveSpec base r).scheme ∧ (split t).authority = (resolveSpec base r).authority ∧
+      (split t).query = (resolveSpec base r).query ∧ (split t).fragment = (resolveSpec base r).fragment :=
+  Lemmas.resolve_components G ok okp base r hb hr
+
+/-- **the ambiguous targets, reference with a scheme**: whenever two or more segments remain — in
+particular when the RFC's own path text would begin with `//` and be read as an authority — the
+result has the reference's scheme, authority, query and fragment and a path that realises the RFC's
+segment list `normTarget` (the RFC path is `render` of that list), literally or behind the shield -/
+theorem resolve_scheme_rendering (G : Grammar) (ok : Grammar.Ok G) (okp : Grammar.OkPath G) (base r s : Text)
+    (hr : RE.Matches G.reference r) (hs : (split r).scheme = some s)
+    (hlen : 2 ≤ (nsegs (split r).path).length) :
+    ∃ t, Model.Ref.resolve r base = some t ∧ RE.Matches G.reference t ∧
+      split t = { split r with path := (split t).path } ∧
+      realises (split t).path (normTarget (split r).path) = true ∧
+      isAbs (split t).path = isAbs (split r).path ∧
+      (resolveSpec base r).path = render (isAbs (split r).path) (normTarget (split r).path) := by
+  obtain ⟨t, e, v, sp, hrz, hab⟩ := Lemmas.resolve_scheme_rendering G ok okp base r s hr hs hlen
+  refine ⟨t, e, v, sp, hrz, hab, ?_⟩
+  simp [resolveSpec, transform, hs, removeDots]
+
+/-- … and an absolute-path reference against any base -/
+theorem resolve_absolute_rendering (G : Grammar) (ok : Grammar.Ok G) (okp : Grammar.OkPath G) (base r : Text)
+    (hb : RE.Matches G.full base) (hr : RE.Matches G.reference r)
+    (hs : (split r).scheme = none) (ha : (split r).authority = none) (habs : isAbs (split r).path = true)
+    (hlen : 2 ≤ (nsegs (split r).path).length) :
+    ∃ t, Model.Ref.resolve r base = some t ∧ RE.Matches G.reference t ∧
+      (split t).scheme = (resolveSpec base r).scheme ∧ (split t).authority = (resolveSpec base r).authority ∧
+      (split t).query = (resolveSpec base r).query ∧ (split t).fragment = (resolveSpec base r).fragment ∧
+      realises (split t).path (normTarget (split r).path) = true ∧ isAbs (split t).path = true := by
+  obtain ⟨t, e, v, ⟨f1, f2, f3, f4⟩, hrz, hab⟩ := Lemmas.resolve_absolute_rendering G ok okp base r hb hr hs ha habs hlen
+  exact ⟨t, e, v, f1, f2, f3, f4, hrz, hab⟩
+
+/-- the witness: `s:/..//a` — the RFC text `s://a` would have an authority; the model writes
+`s:/.//a`, whose path realises the same list `["", "a"]` -/
+example : Model.Ref.resolve [0x73,0x3A,0x2F,0x2E,0x2E,0x2F,0x2F,0x61] base54'
+    = some [0x73,0x3A,0x2F,0x2E,0x2F,0x2F,0x61] := by decide
 
 /-- closed loop, URI family: an accepted `Uri` base, an accepted `UriRef` — the result is an
 accepted `Uri` -/
